@@ -45,14 +45,22 @@ pub fn c20_ttl(rep: &mut Report, backend: Bk, ttl_seconds: Option<u64>) {
         // a configured time-to-live other than the default week
         sc.cfg.snapshot_ttl_seconds = t;
     }
-    let w = match build_world(&sc, backend) {
+    // a time-to-live of a few seconds would expire the snapshots while the history is still being built (every fork of a
+    // SQLite client runs the start-up pruning): such values are only in force for the restart that is judged
+    let ttl = sc.cfg.snapshot_ttl_seconds;
+    let small_ttl = ttl < 60;
+    let cfg_judged = sc.cfg.clone();
+    let mut sc_build = sc.clone();
+    if small_ttl {
+        sc_build.cfg.snapshot_ttl_seconds = Cfg::default().snapshot_ttl_seconds;
+    }
+    let w = match build_world(&sc_build, backend) {
         Ok(w) => w,
         Err(e) => {
             rep.machinery_errors.push(format!("c20_ttl world: {}", e.0));
             return;
         }
     };
-    let ttl = sc.cfg.snapshot_ttl_seconds;
     let idx = |suffix: &str| w.pool.iter().position(|p| p.label.ends_with(suffix)).unwrap();
     let (b1, b2, b3, a2) = (idx("B.rename0"), w.pool.iter().position(|p| p.label.starts_with("n0.B")).unwrap(), w.pool.iter().position(|p| p.label.starts_with("n0_0.B")).unwrap(), w.pool.iter().position(|p| p.label.starts_with("n0.A")).unwrap());
     // ages: every subset of {e1,e2,e3} expired x margin
@@ -109,7 +117,7 @@ pub fn c20_ttl(rep: &mut Report, backend: Bk, ttl_seconds: Option<u64>) {
             if backend == Bk::Sqlite {
                 for (label, cl) in [("before-rollback", &c), ("after-rollback", &out.client)] {
                     let before = list_snaps(cl, &w.gid);
-                    let r = cl.restart();
+                    let r = if small_ttl { cl.restart_with(&cfg_judged) } else { cl.restart() };
                     let got: Vec<String> = list_snaps(&r, &w.gid).into_iter().map(|x| x.0).collect();
                     let t1 = now();
                     let mut want: Vec<String> = Vec::new();
